@@ -19,7 +19,7 @@ use crate::{
     error::JsNativeError,
     js_string,
     object::{
-        CONSTRUCTOR, IndexedProperties, JsData, JsObject,
+        CONSTRUCTOR, IndexedProperties, JsData, JsObject, RecursionLimiter,
         internal_methods::{
             InternalMethodPropertyContext, InternalObjectMethods, ORDINARY_INTERNAL_METHODS,
             get_prototype_from_constructor, ordinary_define_own_property,
@@ -990,6 +990,15 @@ impl Array {
     ) -> JsResult<JsValue> {
         // 1. Let O be ? ToObject(this value).
         let o = this.to_object(context)?;
+
+        // Diverge from the spec here to make sure we aren't going to overflow the stack by joining
+        // a cyclic structure (`a = [1]; b = [a]; a[1] = b; a.join()`): like V8 and SpiderMonkey, an
+        // array that is already being joined contributes the empty string.
+        let recursion_limiter = RecursionLimiter::new(o.as_ref());
+        if recursion_limiter.live {
+            return Ok(js_string!().into());
+        }
+
         // 2. Let len be ? LengthOfArrayLike(O).
         let len = o.length_of_array_like(context)?;
         // 3. If separator is undefined, let sep be the single-element String ",".
